@@ -369,7 +369,23 @@ EXC_NS = {k: v for k, v in vars(__import__("builtins")).items() if isinstance(v,
 
 def _origin_is_engine(tb) -> bool:
     last = traceback.extract_tb(tb)[-1]
-    return "/vfw/" in last.filename
+    return "/vfw/" in last.filename or "/verif/props/" in last.filename
+
+
+def _about_a_model_object(e) -> bool:
+    """an AttributeError / TypeError caused by an operation our abstract models (symbolic values, the shim classes of props/*.py) do not implement says the
+    code left the modelled fragment - it says nothing about the code"""
+    if not isinstance(e, (AttributeError, TypeError)):
+        return False
+    obj = getattr(e, "obj", None)
+    if obj is not None and (type(obj).__module__ or "").split(".")[0] in ("vfw", "props"):
+        return True
+    names = set()
+    for mn, m in list(sys.modules.items()):
+        if mn.split(".")[0] in ("vfw", "props") and m is not None:
+            names.update(n for n, v in vars(m).items() if isinstance(v, type) and (v.__module__ or "").split(".")[0] in ("vfw", "props"))
+    msg = str(e)
+    return any(("'" + n + "'") in msg for n in names)
 
 
 def verify(c: Contract, call: Callable[[Dict[str, Any], Dict[str, Any]], Any],
@@ -438,6 +454,8 @@ def verify(c: Contract, call: Callable[[Dict[str, Any], Dict[str, Any]], Any],
             except Exception as e:
                 if type(e).__name__ == "_Timeout":
                     raise
+                if _about_a_model_object(e):
+                    raise Unsupported(f"operation not modelled: {type(e).__name__}: {e}")
                 if _origin_is_engine(e.__traceback__) and not isinstance(e, tuple(EXC_NS[k] for k in c.raises if k in EXC_NS)):
                     raise Unsupported(f"engine error {type(e).__name__}: {e} :: " + " <- ".join(f"{f.filename.split('/')[-1]}:{f.lineno}:{f.name}" for f in traceback.extract_tb(e.__traceback__)[-5:]))
                 en = type(e).__name__
